@@ -8,6 +8,11 @@ use rustradio::{Complex, Float};
 use serde_json::Value;
 
 fn gen_data<T: Val>(spec: &Value, port: usize, rng: &mut Rng) -> Vec<T> {
+    // explicit integer data (bits, bytes) given by the scenario
+    if let Some(a) = spec["data"][port].as_array() {
+        let mut ix = 0usize;
+        return a.iter().map(|v| { ix += 1; T::generate(&format!("lit:{}", v.as_i64().unwrap_or(0)), ix, rng) }).collect();
+    }
     let len = spec["lens"][port].as_u64().or(spec["len"].as_u64()).unwrap_or(0) as usize;
     let kind = spec["kinds"][port].as_str().or(spec["kind"].as_str()).unwrap_or("small").to_string();
     (0..len).map(|i| T::generate(&kind, i, rng)).collect()
